@@ -217,7 +217,7 @@ def prime_related(case, keys: Keys, sigs, Q):
     this never changes what the specification allows; it exposes verdict caches keyed by (key, signature)."""
     from . import lib
     auth = lib.cct("authentication")
-    entries = case["e"].items() if isinstance(case["e"], dict) else enumerate(case["e"], 1)
+    entries = list(case["e"].items() if isinstance(case["e"], dict) else enumerate(case["e"], 1))
     for fr in ("raw", "gpg"):
         sub = {}
         for ks, v in entries:
